@@ -117,12 +117,16 @@ def _run_one(i: int):
             _MOD.run(ctx)
         except AnalysisError as e:
             if neutral:
-                return (m['name'], 'neutral-alarm', f'ANALYSIS-ERROR {e}')
-            return (m['name'], 'killed-by-analysis-error', str(e)[:200])
+                return (m['name'], 'neutral-refused', f'ANALYSIS-ERROR {e}')
+            return (m['name'], 'refused', 'ANALYSIS-ERROR ' + str(e)[:200])
         new = [o for o in ctx.obligations if not o.ok and o.key not in _BASE]
+        refused = [o for o in new if not o.recognised]
+        new = [o for o in new if o.recognised]
         if neutral:
             if new:
                 return (m['name'], 'neutral-alarm', '; '.join(f'{o.rule} {o.construct}' for o in new[:3]))
+            if refused:
+                return (m['name'], 'neutral-refused', '; '.join(f'{o.rule} {o.construct}' for o in refused[:3]))
             return (m['name'], 'neutral-silent', '')
         want = m.get('rule')
         hit = [o for o in new if want is None or o.rule == want or o.rule.startswith(want)]
@@ -130,6 +134,8 @@ def _run_one(i: int):
             return (m['name'], 'killed', f'{hit[0].rule} {hit[0].construct}: {hit[0].message[:120]}')
         if new:
             return (m['name'], 'killed-other-rule', f'{new[0].rule} {new[0].construct}')
+        if refused:
+            return (m['name'], 'refused', f'{refused[0].rule} {refused[0].construct}: not recognised (exit 2, no verdict)')
         return (m['name'], 'survived', '')
     except Exception as e:  # noqa
         return (m['name'], 'error', repr(e)[:200])
@@ -154,18 +160,24 @@ def run_selftest(prog: Program, prop: str, mod) -> dict:
     else:
         res = [_run_one(i) for i in range(n)]
     killed = [r for r in res if r[1].startswith('killed')]
+    refused = [r for r in res if r[1] == 'refused']
+    nrefused = [r for r in res if r[1] == 'neutral-refused']
     survived = [r for r in res if r[1] == 'survived']
     skipped = [r for r in res if r[1] == 'skipped']
     alarms = [r for r in res if r[1] == 'neutral-alarm']
     errors = [r for r in res if r[1] == 'error']
     silent = [r for r in res if r[1] == 'neutral-silent']
     print(
-        f'[{prop}] self-test on in-memory variants: {len(killed)}/{len(muts)} seeded breaks reported, '
-        f'{len(survived)} survived, {len(skipped)} skipped; {len(silent)}/{len(neut)} behaviour-preserving '
-        f'variants silent, {len(alarms)} false alarm(s), {len(errors)} error(s)'
+        f'[{prop}] self-test on in-memory variants: {len(killed)}/{len(muts)} seeded breaks reported as violations, '
+        f'{len(refused)} refused (exit 2), {len(survived)} survived, {len(skipped)} skipped; {len(silent)}/{len(neut)} behaviour-preserving '
+        f'variants silent, {len(nrefused)} refused (exit 2), {len(alarms)} false alarm(s), {len(errors)} error(s)'
     )
     for r in survived:
         print(f'SELFTEST-MISS: {prop} seeded break not reported: {r[0]}')
+    for r in refused:
+        print(f'SELFTEST-REFUSED: {prop} seeded break answered by exit 2 instead of a violation: {r[0]}: {r[2][:160]}')
+    for r in nrefused:
+        print(f'SELFTEST-NEUTRAL-REFUSED: {prop} behaviour-preserving variant answered by exit 2: {r[0]}: {r[2][:160]}')
     for r in alarms:
         print(f'SELFTEST-FALSE-ALARM: {prop} behaviour-preserving variant reported: {r[0]}: {r[2]}')
     for r in errors:
@@ -174,11 +186,13 @@ def run_selftest(prog: Program, prop: str, mod) -> dict:
         'selftest': {
             'seeded_breaks': len(muts),
             'reported': len(killed),
+            'refused_exit_2': [r[0] for r in refused],
             'survived': [r[0] for r in survived],
             'skipped': [r[0] for r in skipped],
             'behaviour_preserving_variants': len(neut),
             'silent': len(silent),
             'false_alarms': [r[0] for r in alarms],
+            'behaviour_preserving_refused_exit_2': [r[0] for r in nrefused],
             'errors': [r[0] for r in errors],
             'details': [{'variant': r[0], 'outcome': r[1], 'report': r[2]} for r in res],
         }
